@@ -130,9 +130,22 @@ def guardLoopR (fs : FS) : P → List Comp → Bool
     | .found _ (.symlink _) => false
     | .found _ _ => guardLoopR fs (cleanStep cur part) rest
 
-/-- `internal.EnsureNoSymlinks(root, p)` for `p` at or below the root: `filepath.Rel` is `.` or the components below -/
+/-- length of the common prefix of two paths -/
+def commonLen : P → P → Nat
+  | a :: s, b :: t => if a = b then commonLen s t + 1 else 0
+  | _, _ => 0
+
+/-- `strings.Split(filepath.Rel(root, p), "/")` for clean absolute paths: `.` if they are equal, else one `..` for every
+    component of the root beyond the common prefix, then what is left of `p` (for `p` below the root: its components
+    below the root) -/
+def relParts (root p : P) : List Comp :=
+  if p = root then [[46]]
+  else List.replicate (root.length - commonLen root p) [46, 46] ++ p.drop (commonLen root p)
+
+/-- `internal.EnsureNoSymlinks(root, p)`, any two clean absolute paths (the extractors only pass a `p` at or below the
+    root, where the parts are `.` or the components below it: `relParts_of_prefix`) -/
 def ensureNoSymlinksR (fs : FS) (root p : P) : Bool :=
-  guardLoopR fs root (if p = root then [[46]] else p.drop root.length)
+  guardLoopR fs root (relParts root p)
 
 /-- one iteration of tar `ExtractWithMask` over the resolving primitives; `guarded = false` leaves both guard calls out -/
 def tarOneG (guarded : Bool) (fs : FS) (root : P) (mask : Nat) (e : Entry) : FS × Bool :=
@@ -213,6 +226,17 @@ def tarExtractWithMaskAt (fs : FS) (cwd : P) (dst : List Nat) (mask : Nat) (es :
   tarExtractR fs (absPath cwd dst) mask es
 def zipExtractWithMaskAt (fs : FS) (cwd : P) (dst : List Nat) (mask : Nat) (es : List Entry) : FS × Bool :=
   zipExtractR fs (absPath cwd dst) mask es
+
+/-- the same with `os.Getwd` able to fail: `if err != nil { return errs.Wrap(err) }` after `filepath.Abs` — an error
+    before anything is looked at or created -/
+def tarExtractWithMaskFrom (fs : FS) (cwd : Option P) (dst : List Nat) (mask : Nat) (es : List Entry) : FS × Bool :=
+  match absPath? cwd dst with
+  | none => (fs, false)
+  | some root => tarExtractR fs root mask es
+def zipExtractWithMaskFrom (fs : FS) (cwd : Option P) (dst : List Nat) (mask : Nat) (es : List Entry) : FS × Bool :=
+  match absPath? cwd dst with
+  | none => (fs, false)
+  | some root => zipExtractR fs root mask es
 
 /-! ### the exported wrappers (as in `Model/Extract.lean`, over the resolving loops) -/
 
